@@ -78,6 +78,22 @@ def gen_C02(tier, rng):
         for _ in range(8):
             vals.append([(x, rng.random() < 0.5) for x in names + ["z"] if rng.random() < 0.7])
         add(e, vals, "random")
+    # the literal constructors (var / mk_literal) with names that a normalising helper would alter: blanks around the
+    # name, case, the empty name; evaluated under the exact name, the trimmed / case-folded name and nothing
+    odd = [" x", "x ", " x ", "\tx", "x\n", " ", "", "X", "x", "x y", "é ", "0", "true"]
+    for k in range(0, len(odd), 4):
+        c = Case("c02_lit%d" % k)
+        for nm in odd[k:k + 4]:
+            regs_ = [c.r("mkliteral E %s 1" % hexname(nm)), c.r("mkliteral E %s 0" % hexname(nm)), c.r("mkliteral B %s 1" % hexname(nm)), c.r("mkliteral B %s 0" % hexname(nm))]
+            regs_.append(c.r("conv T %d" % regs_[0]))
+            alts = [nm, nm.strip(), nm.lower(), nm.upper()]
+            for r in regs_:
+                c.q("obs %d" % r)
+                for a_ in alts + [None]:
+                    v = [] if a_ is None else [(a_, True)]
+                    for d in ("0", "1", "-"): c.q("eval %d %s %s" % (r, d, val_tokens(v)))
+        dist["literal_constructors"] += 1
+        cases.append(c.done(c.id, True))
     # wide functions (7-10 inputs): row-index arithmetic beyond one word of rows, many unassigned inputs at once
     for nv in ([7, 8, 9, 10] if tier == "quick" else [7, 8, 9, 10, 11, 12]):
         for rep in range(3 if tier == "quick" else 10):
@@ -90,7 +106,7 @@ def gen_C02(tier, rng):
             vals.append([])
             add(e, vals, "wide%d" % nv)
     return {"cases": cases, "exhaustive": True, "dist": dict(dist),
-            "rule": "every expression tree with <= %d nodes over 3 names, constants and n-ary arities 0..3, in its expression, table and diagram form, under all 81 partial assignments of {a,b,c,z}, defaults 0/1 and checked mode; sampled larger trees and random trees up to 8 names; sparse asymmetric functions of 7-10 (12) inputs under total, partial and empty assignments; a case is non-trivial when some assignment leaves an input unassigned and assigns another; distinct = distinct trees" % full_upto}
+            "rule": "every expression tree with <= %d nodes over 3 names, constants and n-ary arities 0..3, in its expression, table and diagram form, under all 81 partial assignments of {a,b,c,z}, defaults 0/1 and checked mode; sampled larger trees and random trees up to 8 names; sparse asymmetric functions of 7-10 (12) inputs under total, partial and empty assignments; literals built by the helper constructors from names with blanks / other case / empty; a case is non-trivial when some assignment leaves an input unassigned and assigns another; distinct = distinct trees" % full_upto}
 
 
 def gen_C05(tier, rng):
